@@ -498,13 +498,15 @@ P_XcopyLid4(b) ==
 Exact_XcopyLid4(b) == Len(b) >= 48 /\ Nn(b, 0, 1) = 1 /\ Nn(b, 2, 2) = 32 /\ Nn(b, 16, 1) = 255
                       /\ XcopyExact(b, 48, Nn(b, 42, 2), Nn(b, 44, 2), Nn(b, 46, 2))
 
-OutFormats == { "ModeSelect6", "ModeSelect10", "PrOutBasic", "PrOutSpecIpt", "PrOutRegMove", "XcopyLid1", "XcopyLid4" }
+OutFormats == { "TransportID", "ModeSelect6", "ModeSelect10", "PrOutBasic", "PrOutSpecIpt", "PrOutRegMove", "XcopyLid1", "XcopyLid4" }
 ParseOut(fmt, b) ==
-    CASE fmt = "ModeSelect6" -> P_ModeSelect6(b) [] fmt = "ModeSelect10" -> P_ModeSelect10(b)
+    CASE fmt = "TransportID" -> TransportIdOut("tid", b)
+      [] fmt = "ModeSelect6" -> P_ModeSelect6(b) [] fmt = "ModeSelect10" -> P_ModeSelect10(b)
       [] fmt = "PrOutBasic" -> P_PrOutBasic(b) [] fmt = "PrOutSpecIpt" -> P_PrOutSpecIpt(b) [] fmt = "PrOutRegMove" -> P_PrOutRegMove(b)
       [] fmt = "XcopyLid1" -> P_XcopyLid1(b) [] fmt = "XcopyLid4" -> P_XcopyLid4(b)
 Exact(fmt, b) ==
-    CASE fmt = "ModeSelect6" -> Exact_ModeSelect6(b) [] fmt = "ModeSelect10" -> Exact_ModeSelect10(b)
+    CASE fmt = "TransportID" -> Exact_Tid(b)
+      [] fmt = "ModeSelect6" -> Exact_ModeSelect6(b) [] fmt = "ModeSelect10" -> Exact_ModeSelect10(b)
       [] fmt = "PrOutBasic" -> Exact_PrOutBasic(b) [] fmt = "PrOutSpecIpt" -> Exact_PrOutSpecIpt(b)
       [] fmt = "PrOutRegMove" -> Exact_PrOutRegMove(b) [] fmt = "XcopyLid1" -> Exact_XcopyLid1(b) [] fmt = "XcopyLid4" -> Exact_XcopyLid4(b)
 
